@@ -135,10 +135,24 @@ pub fn gen_case(ch: &mut Choices, p: &Profile) -> SimCase {
     for _ in 0..len {
         // directed phrases: multi-step choreographies that uniform choice would almost never produce
         if p.byzantine && ch.chance(1, 5) {
-            match ch.below(4) {
+            match ch.below(5) {
+                4 => {
+                    // the re-proposal attack: a block gets few votes and the view times out without the Byzantine validators
+                    // admitting anything, so a fresh block is proposed for the same number; that one is certified, but only one
+                    // node learns it; the others time out and the Byzantine validators back the stalest vote reported;
+                    // finally every certificate that can be assembled is shown to everybody, in two orders
+                    actions.push(Action::HideQc { voters: ch.pick(&[2u8, 2, 1, 3]), reveal: 0, lie: ch.pick(&[0u8, 0, 4]) });
+                    if ch.chance(1, 3) {
+                        actions.push(all(1));
+                    }
+                    actions.push(Action::HideQc { voters: ch.pick(&[5u8, 5, 6, 4]), reveal: 1 << ch.below(6), lie: ch.pick(&[4u8, 4, 2, 1]) });
+                    actions.push(all(2));
+                    actions.push(Action::Complete { reveal: u16::MAX, alt_order: true });
+                    actions.push(all(1));
+                }
                 0 => {
                     // a certificate forms with few correct voters, is shown to one node, the rest times out and moves on
-                    actions.push(Action::HideQc { voters: ch.pick(&[3u8, 4, 4, 5, 2]), reveal: 1 << ch.below(6), lie: ch.below(4) as u8 });
+                    actions.push(Action::HideQc { voters: ch.pick(&[3u8, 4, 4, 5, 2]), reveal: 1 << ch.below(6), lie: ch.below(5) as u8 });
                     if ch.bool() {
                         actions.push(Action::Equivocate { to_a: u16::MAX, to_b: ch.raw() });
                     }
@@ -161,7 +175,7 @@ pub fn gen_case(ch: &mut Choices, p: &Profile) -> SimCase {
                 _ => {
                     actions.push(Action::Timeout { mask: u16::MAX });
                     actions.push(Action::Flush { mask: u16::MAX, kinds: 4, limit: 1000, rounds: 1 });
-                    actions.push(Action::CompleteTimeouts { lie: ch.below(4) as u8, reveal: mask(ch) });
+                    actions.push(Action::CompleteTimeouts { lie: ch.below(5) as u8, reveal: mask(ch) });
                     actions.push(all(2));
                 }
             }
@@ -179,9 +193,9 @@ pub fn gen_case(ch: &mut Choices, p: &Profile) -> SimCase {
             26 if p.crashes => Action::Persist { node: ch.raw(), k: ch.pick(&[1u16, 5, 100]) },
             27..=29 if p.byzantine => Action::Complete { reveal: if ch.bool() { 0 } else { mask(ch) }, alt_order: ch.bool() },
             30 if p.byzantine => Action::Forge { kind: ch.below(4) as u8, to: mask(ch) },
-            31 | 32 if p.byzantine => Action::CompleteTimeouts { lie: ch.below(4) as u8, reveal: mask(ch) },
+            31 | 32 if p.byzantine => Action::CompleteTimeouts { lie: ch.below(5) as u8, reveal: mask(ch) },
             33 | 34 if p.byzantine => Action::Equivocate { to_a: mask(ch), to_b: mask(ch) },
-            35 if p.byzantine => Action::HideQc { voters: ch.pick(&[3u8, 4, 4, 5, 2]), reveal: 1 << ch.below(6), lie: ch.below(4) as u8 },
+            35 if p.byzantine => Action::HideQc { voters: ch.pick(&[3u8, 4, 4, 5, 2]), reveal: 1 << ch.below(6), lie: ch.below(5) as u8 },
             36 if p.byzantine && p.absurd => Action::Absurd { kind: ch.below(6) as u8, to: mask(ch) },
             38 | 39 if p.variants => Action::Variant { msg: ch.raw(), to: ch.raw(), kind: ch.below(6) as u8, arg: ch.below(6) as u8 },
             37 if p.byzantine && p.floods => Action::Flood { byz: ch.below(4) as u8, timeouts: ch.bool(), from_view: ch.pick(&[0u32, 5, 1000]), count: ch.pick(&[3u16, 20, 60]), to: mask(ch) },
